@@ -748,6 +748,14 @@ func (g *gen) instTStruct(path []pstep) reflect.Value {
 		}
 		g.leaves = append(g.leaves, leaf{Path: cp(cp(cp(path, pstep{K: 'N', Key: "Attrs"}), pstep{K: 'M', Key: key}), pstep{K: 'E'}), Canary: c, Exp: exp})
 	}
+	if g.r.Intn(3) == 0 {
+		// values of other kinds in the Taggable struct's map: structs (with Taggable map fields of their own), maps,
+		// slices - no pointer tag addresses them, they are filtered like the values of any other map
+		if dyn := g.genDyn(2); dyn != nil {
+			p := cp(cp(cp(path, pstep{K: 'N', Key: "Attrs"}), pstep{K: 'M', Key: "dyn"}), pstep{K: 'E'})
+			ts.Attrs["dyn"] = g.inst(dyn, p, g.cfg.classify(false, "", ""), true, 2).Interface()
+		}
+	}
 	ts.Name, ts.Note, ts.Pub = g.canary(), g.canary(), g.canary()
 	g.leaves = append(g.leaves,
 		leaf{Path: cp(path, pstep{K: 'N', Key: "Name"}), Canary: ts.Name, Exp: g.cfg.classify(true, "sensitive", "")},
